@@ -63,7 +63,17 @@ pub fn generate(thorough: bool, seed: u64, em: &mut Emitter) {
                         Some((gen::render(&d), paths.len()))
                     }
                 }
-                "reserved_name" => None, // claims of the valid stream never contain reserved names
+                "reserved_name" => {
+                    // the claims themselves use a reserved name: refused whatever the paths are (repair F19)
+                    let mut c = claims.clone();
+                    gen::plant_reserved_name(r, &mut c);
+                    case["claims"] = c;
+                    case["expect_issue"] = json!("err");
+                    case["tag"] = json!(kind);
+                    case["nontrivial"] = json!(true);
+                    em.case("issue", case);
+                    continue;
+                }
                 _ => None,
             };
             match bad {
